@@ -955,11 +955,14 @@ func (dsc *dataStoreCommand) restore(keyName, serializedData string, ttl int64, 
 		}
 	}
 
-	len := binary.BigEndian.Uint32(content[2:6])
-	var serialBytes []byte
-	if len > 0 {
-		serialBytes = content[6 : 6+len-1]
+	// DUMP only serializes string values, and only those can be restored; the
+	// type and length bytes come from the client and are not to be trusted
+	length := binary.BigEndian.Uint32(content[2:6])
+	if bitflags(content[1]) != FLAG_KEY_TYPE_STRING || length == 0 || int64(length)-1 != int64(len(content))-6 {
+		output.data = respErrorString("ERR Bad data format")
+		return
 	}
+	serialBytes := content[6:]
 
 	newSk := dsc.ds.newStoreKeyUnlocked(keyName)
 	newSk.flags = bitflags(content[1])
